@@ -33,6 +33,7 @@ import (
 	"github.com/nspcc-dev/neo-go/pkg/smartcontract/trigger"
 	"github.com/nspcc-dev/neo-go/pkg/util"
 	"github.com/nspcc-dev/neo-go/pkg/vm/stackitem"
+	icrypto "github.com/nspcc-dev/neofs-node/internal/crypto"
 	isessions "github.com/nspcc-dev/neofs-node/internal/sessions"
 	"github.com/nspcc-dev/neofs-node/pkg/services/object/common"
 	"github.com/nspcc-dev/neofs-sdk-go/bearer"
@@ -43,6 +44,7 @@ import (
 	neofsecdsa "github.com/nspcc-dev/neofs-sdk-go/crypto/ecdsa"
 	"github.com/nspcc-dev/neofs-sdk-go/eacl"
 	"github.com/nspcc-dev/neofs-sdk-go/netmap"
+	"github.com/nspcc-dev/neofs-sdk-go/object"
 	oid "github.com/nspcc-dev/neofs-sdk-go/object/id"
 	protoacl "github.com/nspcc-dev/neofs-sdk-go/proto/acl"
 	protoobject "github.com/nspcc-dev/neofs-sdk-go/proto/object"
@@ -58,7 +60,7 @@ import (
 func TestVerif(t *testing.T) {
 	simkit.Main(t, &simkit.Property{
 		ID: "C30", Level: "exploration", Bubble: false, TapeLimit: 4000,
-		Rule: "each run = one acl/v2 Service (session-cache size 1..1024, bearer-LRU size 1..1000) and a history of 5-40 object requests (get, head, range, search, delete, put, put of a tombstone) over 2-3 containers and 2-3 objects, signed by the owner, other users, an inner-ring or a container node, carrying session v1 tokens (verb, container, object list, epochs), session v2 tokens (contexts with verbs, wildcard container, delegation chains with user and NNS subjects, lifetimes in chain time), bearer tokens (eACL container, target user, epochs), signed with the three ECDSA schemes or by a contract account (N3 witness run on the simulated chain); lifetimes are placed at now-1/now/now+1 of the epoch clock (v1, bearer) or chain time (v2), both clocks move between requests, the same token is presented again while the clock crosses its nbf/exp, and a twin of a just-honoured token (one signed field changed with the signature kept, one signature byte flipped, re-signed by another key, key replaced) follows it; the new-epoch cache reset that cmd/neofs-node wires is delivered with the tick, late, or lost. The oracle is a predicate over the token models: a token may be honoured only if every signature matches its issuer, the current clock is inside its validity period, and it applies to the request's container, object and verb (bearer: issued by the container owner, for this container, for this sender); a token valid on all counts must be honoured and the request attributed to its (original) issuer. distinct = trace digest; non-trivial = a verification was answered from a cache, or a token was presented on both sides of one of its lifetime boundaries",
+		Rule: "each run = one acl/v2 Service (session-cache size 1..1024, bearer-LRU size 1..1000) and a history of 5-40 object requests (get, head, range, search, delete, put, put of a tombstone) over 2-3 containers and 2-3 objects, signed by the owner, other users, an inner-ring or a container node, carrying session v1 tokens (verb, container, object list, epochs), session v2 tokens (contexts with verbs, wildcard container, delegation chains with user and NNS subjects, lifetimes in chain time), bearer tokens (eACL container, target user, epochs), signed with the three ECDSA schemes or by a contract account (N3 witness run on the simulated chain); lifetimes are placed at now-1/now/now+1 of the epoch clock (v1, bearer) or chain time (v2), both clocks move between requests, the same token is presented again while the clock crosses its nbf/exp, and a twin of a just-honoured token (one signed field changed with the signature kept, one signature byte flipped, re-signed by another key, key replaced) follows it; the new-epoch cache reset that cmd/neofs-node wires is delivered with the tick, late, or lost; in half of the runs the node's object pipeline authenticates objects whose header carries the token about to be presented (real internal/crypto.AuthenticateObject on the sessions cache it shares with the ACL service). The oracle is a predicate over the token models: a token may be honoured only if every signature matches its issuer, the current clock is inside its validity period, and it applies to the request's container, object and verb (bearer: issued by the container owner, for this container, for this sender); a token valid on all counts must be honoured and the request attributed to its (original) issuer. distinct = trace digest; non-trivial = a verification was answered from a cache, or a token was presented on both sides of one of its lifetime boundaries",
 		Run:  runC30,
 		Assumptions: []string{
 			"the statement is read with the verb implications of the NeoFS specification (HEAD is implied by GET, DELETE and RANGE tokens, SEARCH by DELETE tokens): such uses may be honoured or refused",
@@ -66,6 +68,7 @@ func TestVerif(t *testing.T) {
 			"the object ID of a tombstone being PUT cannot be known to the token issuer: any answer is accepted for the object relation there",
 			"the caches are purged on a new epoch by the handlers cmd/neofs-node registers (sessionsCache.ResetCache, Service.ResetTokenCheckCache); the world delivers that purge with the epoch tick, late, or not at all (the handler is asynchronous in the node)",
 			"eACL rules inside a bearer token (which operations they allow) are evaluated by pkg/services/object/acl, outside this world",
+			"one ObjectSessionsCache instance serves the ACL service and the object format validator, as cmd/neofs-node/object.go wires it",
 		},
 		Components: map[string]string{
 			"acl/v2.Service: VerifySessionV1TokenMessage / VerifySessionTokenMessage / VerifyBearerTokenMessage / *RequestToInfo / classifier": "real",
@@ -75,6 +78,7 @@ func TestVerif(t *testing.T) {
 			"object server's meta-header handling (which Verify* is called with which verb, then which *RequestToInfo)":                      "simulated: re-stated in the harness (the server package imports this one)",
 			"FS chain: epoch, block time, containers, inner ring keys, container nodes, NNS, contract witness execution":                      "simulated",
 			"new-epoch notification handlers of cmd/neofs-node":                                                                             "simulated: purge delivered on tick / late / lost",
+			"object pipeline sharing the sessions cache (FormatValidator -> icrypto.AuthenticateObject)":                                   "real AuthenticateObject, called by the world with an object that carries the token (the rest of the put pipeline is not executed)",
 		},
 	})
 }
@@ -297,6 +301,49 @@ type c30Tok struct {
 	uses      int
 	lastClock int64
 	honoured  bool
+	// an object carrying this token passed the node's object authentication since the last
+	// purge: the shared sessions cache holds a "correctly signed" entry for it
+	objCached bool
+}
+
+// objectArrives plays the node's object pipeline (put / replication) receiving an object whose
+// header carries the token: pkg/core/object.FormatValidator calls icrypto.AuthenticateObject
+// with the sessions cache it shares with the ACL service (cmd/neofs-node/object.go).
+func (w *c30World) objectArrives(t *c30Tok) {
+	r := w.r
+	var signerUser int
+	obj := object.New(w.cnrs[0], w.identID(t.issuer))
+	switch t.kind {
+	case c30V1:
+		var st session.Object
+		if err := st.FromProtoMessage(t.v1); err != nil {
+			return
+		}
+		obj.SetSessionToken(&st)
+		signerUser = (t.issuer.u + 1) % c30Regular // the session key of buildV1
+	case c30V2:
+		var st sessionv2.Token
+		if err := st.FromProtoMessage(t.v2); err != nil {
+			return
+		}
+		obj.SetSessionTokenV2(&st)
+		obj.SetOwner(w.identID(t.links[len(t.links)-1].issuer))
+		if len(t.links[0].subjUsers) == 0 {
+			return
+		}
+		signerUser = t.links[0].subjUsers[0]
+	default:
+		return
+	}
+	if err := obj.SetVerificationFields(neofsecdsa.SignerRFC6979(w.users[signerUser].priv)); err != nil {
+		r.Failf("infra", "sign object", "%v", err)
+	}
+	err := icrypto.AuthenticateObject(*obj, historicN3ScriptRunner{FSChain: c30Chain{w}, Netmapper: w}, w.sess, w.svc.r)
+	r.Logf("  an object carrying T%d is authenticated by the object pipeline -> %s", t.idx, c30Res(true, err))
+	if err == nil {
+		t.objCached = true
+		r.Fired("object carrying a token authenticated (shared cache filled)")
+	}
 }
 
 func (w *c30World) sign(id c30Ident, scheme int, keyUser int, data func() []byte, attach func(neofscrypto.Signature), setIssuer func(user.ID), doSign func(user.Signer) error) {
@@ -473,7 +520,11 @@ func (t *c30Tok) describe() string {
 			}
 			fmt.Fprintf(&b, "by %v %s iat=%d nbf=%d exp=%d", l.issuer, c30SchemeName[l.scheme], l.iat, l.nbf, l.exp)
 			for _, c := range l.ctxs {
-				fmt.Fprintf(&b, " c%d:%s", c.cnr, c30Verbs(c.verbs))
+				if c.cnr < 0 {
+					fmt.Fprintf(&b, " any:%s", c30Verbs(c.verbs))
+				} else {
+					fmt.Fprintf(&b, " c%d:%s", c.cnr, c30Verbs(c.verbs))
+				}
 			}
 			fmt.Fprintf(&b, " subj=%v%v", l.subjUsers, l.subjNNS)
 			if l.final {
@@ -786,14 +837,19 @@ func runC30(r *simkit.R) {
 
 	stale := false // a purge for an epoch tick is still outstanding
 	pending := -1  // requests until the late purge arrives
+	var pool []*c30Tok
 	purge := func(why string) {
 		w.sess.ResetCache()
 		w.svc.ResetTokenCheckCache()
 		stale, pending = false, -1
+		for _, t := range pool {
+			t.objCached = false
+		}
 		r.Logf("  caches purged (%s)", why)
 	}
+	// does the node's object pipeline see objects that carry the tokens of this history
+	objTraffic := r.Weighted(50, 50) == 1
 
-	var pool []*c30Tok
 	var lastHonoured [3]*c30Tok
 	nontrivial := false
 
@@ -1114,6 +1170,10 @@ func runC30(r *simkit.R) {
 			}
 		} else if bear != nil && sess == nil && r.Bool(25) {
 			sess = choose(isSess)
+		}
+
+		if objTraffic && sess != nil && r.Bool(22) {
+			w.objectArrives(sess)
 		}
 
 		w.handle(q, signer, sess, bear, stale, &lastHonoured, &nontrivial, boundaryCrossed, clockOf)
@@ -1478,10 +1538,7 @@ func (w *c30World) handle(q c30Req, signer c30Ident, sess, bear *c30Tok, stale b
 	if sess != nil {
 		switch {
 		case sessHon && sj.v == vdReject:
-			sfx := ""
-			if sess.kind == c30V1 && sj.reject == "it is expired at the current epoch" {
-				sfx = staleSfx // the only wrong answer an outstanding purge can explain
-			}
+			sfx := c30Excuse(sess, sj.reject, staleSfx)
 			r.Failf("token-honoured", fmt.Sprintf("%s token honoured although %s%s", c30KindName[sess.kind], sj.reject, sfx),
 				"%s request for c%d/%s at epoch %d, chain time %d.%03d: %s was honoured although %s", q.name, q.cnr, objS, w.epoch, w.chainMs/1000, w.chainMs%1000, sess.desc, sj.reject)
 		case !sessHon && sj.v == vdAccept:
@@ -1501,10 +1558,7 @@ func (w *c30World) handle(q c30Req, signer c30Ident, sess, bear *c30Tok, stale b
 	if bear != nil && reached {
 		switch {
 		case bearHon && bj.v == vdReject:
-			sfx := ""
-			if bj.reject == "it is expired at the current epoch" {
-				sfx = staleSfx
-			}
+			sfx := c30Excuse(bear, bj.reject, staleSfx)
 			r.Failf("token-honoured", fmt.Sprintf("bearer token honoured although %s%s", bj.reject, sfx),
 				"%s request for c%d/%s at epoch %d: %s was honoured although %s", q.name, q.cnr, objS, w.epoch, bear.desc, bj.reject)
 		case !bearHon && bj.v == vdAccept:
@@ -1555,6 +1609,24 @@ func (w *c30World) handle(q c30Req, signer c30Ident, sess, bear *c30Tok, stale b
 			r.Failf("attribution", "wrong operation in the resolved request", "%s request: operation %v, expected %v", q.name, info.Operation, q.op)
 		}
 	}
+}
+
+// c30Excuse names the world condition that can explain a wrongly honoured token (it goes into
+// the signature, so that each mechanism is a finding of its own and anything else stays loud).
+func c30Excuse(t *c30Tok, reason, staleSfx string) string {
+	expired := reason == "it is expired at the current epoch"
+	life := expired || strings.Contains(reason, "(nbf)") || strings.Contains(reason, "(iat)")
+	if t.objCached && t.kind == c30V1 && life {
+		return " [cache entry made by the object pipeline, which does not check lifetimes]"
+	}
+	if t.objCached && t.kind == c30V2 && !strings.Contains(reason, "signature") &&
+		(strings.Contains(reason, "delegate") || strings.Contains(reason, "final") || strings.HasPrefix(reason, "a token of its delegation chain")) {
+		return " [cache entry made by the object pipeline, which does not validate the delegation chain]"
+	}
+	if t.kind != c30V2 && expired {
+		return staleSfx // the only wrong answer an outstanding purge can explain
+	}
+	return ""
 }
 
 func firstTok(ts ...*c30Tok) *c30Tok {
